@@ -14,13 +14,14 @@ use crate::{
         input_json_extensions::InputJsonExtensions, input_plugin::InputPlugin, InputPluginError,
     },
 };
+use geo::Centroid;
 use geo_types::Coord;
 use routee_compass_core::{
     model::network::edge_id::EdgeId,
-    model::unit::{as_f64::AsF64, Distance, DistanceUnit, BASE_DISTANCE_UNIT},
+    model::unit::{Distance, DistanceUnit, BASE_DISTANCE_UNIT},
     util::{
         fs::{read_decoders, read_utils},
-        geo::geo_io_utils::read_linestring_text_file,
+        geo::{geo_io_utils::read_linestring_text_file, haversine},
     },
 };
 use rstar::RTree;
@@ -189,8 +190,8 @@ fn search(
     vehicle_parameters: &Option<VehicleParameters>,
 ) -> Result<Option<EdgeId>, InputPluginError> {
     let point = geo::Point(coord);
-    for (record, distance_meters) in rtree.nearest_neighbor_iter_with_distance_2(&point) {
-        if !within_tolerance(tolerance, &distance_meters) {
+    for (record, _distance_2) in rtree.nearest_neighbor_iter_with_distance_2(&point) {
+        if !within_tolerance(tolerance, &coord, record)? {
             return Ok(None);
         }
         let valid_class = match (road_classes, road_class_lookup) {
@@ -237,16 +238,28 @@ fn matching_error(
     InputPluginError::InputPluginFailed(message)
 }
 
-/// helper to test if some distance in meters is within the optionally-provided tolerance
-fn within_tolerance(tolerance: Option<(Distance, DistanceUnit)>, distance_meters: &f32) -> bool {
+/// helper to test if the great-circle distance from the coordinate to this record is within the
+/// optionally-provided tolerance. the record is located at the centroid of its geometry, as it is
+/// for the nearest-neighbor ordering (the ordering's own distance is a squared difference of
+/// degrees and cannot be compared with a tolerance on the ground).
+fn within_tolerance(
+    tolerance: Option<(Distance, DistanceUnit)>,
+    coord: &Coord<f32>,
+    record: &EdgeRtreeRecord,
+) -> Result<bool, InputPluginError> {
     match tolerance {
-        None => true,
+        None => Ok(true),
         Some((tolerance, distance_unit)) => {
-            let tolerance_meters = distance_unit
-                .convert(&tolerance, &DistanceUnit::Meters)
-                .as_f64() as f32;
-
-            distance_meters <= &tolerance_meters
+            let centroid = record.geometry.centroid().ok_or_else(|| {
+                InputPluginError::InputPluginFailed(format!(
+                    "edge {} has an empty linestring in the geometry file",
+                    record.edge_id
+                ))
+            })?;
+            let distance_meters = haversine::coord_distance_meters(coord, &centroid.0)
+                .map_err(InputPluginError::InputPluginFailed)?;
+            let distance = DistanceUnit::Meters.convert(&distance_meters, &distance_unit);
+            Ok(distance <= tolerance)
         }
     }
 }
